@@ -85,12 +85,16 @@ class Shim:
         self.mode = mode
         self.tmpdir = None  # what mkdtemp returned
         self.expect = {}  # dest_dir, base
+        import threading
+
+        self.lock = threading.Lock()
 
     def point(self, ev, partial=None):
-        idx = self.n
-        self.n += 1
-        failed = self.fault is not None and idx == self.fault[0]
-        self.events.append(list(ev) + [failed])
+        with self.lock:
+            idx = self.n
+            self.n += 1
+            failed = self.fault is not None and idx == self.fault[0]
+            self.events.append(list(ev) + [failed])
         if failed:
             if partial is not None:
                 partial(self.fault[1])
@@ -153,6 +157,14 @@ class CountingFile:
         return False
 
 
+class CountingFileFD(CountingFile):
+    """Variant with fileno(): numpy's tofile and copy_file_range write through the descriptor (those
+    bytes are not events); used for oracle-only cases."""
+
+    def fileno(self):
+        return self._f.fileno()
+
+
 class _Proxy:
     def __init__(self, real, **over):
         self.__dict__["_real"] = real
@@ -212,7 +224,8 @@ def install(shim: Shim):
     def sopen(path, mode="r", *a, **kw):
         c = canon(path)
         shim.point(["open"] if (c, mode) == ("T/F", "wb") else ["open!", c, mode])
-        return CountingFile(shim, open(path, mode, *a, **kw))
+        cls = CountingFileFD if shim.expect.get("fd") else CountingFile
+        return cls(shim, open(path, mode, *a, **kw))
 
     ed.os = _Proxy(os, replace=replace, remove=remove, rmdir=rmdir)
     ed.tempfile = _Proxy(tempfile, mkdtemp=mkdtemp)
@@ -411,8 +424,11 @@ def _invoke(case: dict, root: str, objs) -> None:
     from onnx_ir import external_data as ed
 
     cb = (lambda t, info: _SHIM[0].point(["cb", info.shard_index if case["api"] == "sharded" else info.index])) if case["cb"] else None
+    kw = {}
+    if case.get("workers"):
+        kw["max_workers"] = case["workers"]
     if case["api"] == "convert":
-        ed.convert_tensors_to_external(objs, base_dir=root, relative_path=case["dest"], callback=cb)
+        ed.convert_tensors_to_external(objs, base_dir=root, relative_path=case["dest"], callback=cb, **kw)
         return
     vals = [
         ir.Value(name=t["name"], shape=ir.Shape([len(t["bytes"])]), type=ir.TensorType(ir.DataType.UINT8), const_value=o)
@@ -420,7 +436,6 @@ def _invoke(case: dict, root: str, objs) -> None:
     ]
     g = ir.Graph([], [], nodes=[], initializers=vals, name="g", opset_imports={"": 20})
     m = ir.Model(g, ir_version=10)
-    kw = {}
     if case["api"] == "sharded":
         kw["max_shard_size_bytes"] = case["max_shard"]
     ir.save(m, os.path.join(root, "m.onnx"), external_data=case["dest"], size_threshold_bytes=case["threshold"], callback=cb, **kw)
@@ -436,7 +451,7 @@ def run_real(case: dict, fault=None, mode="exn") -> dict:
         objs, exts, inomap = _build(case, root)
         core._EXTERNAL_TENSOR_COPY_CHUNK_SIZE = case.get("chunk", old_chunk)
         shim = Shim(fault, mode)
-        shim.expect = {"dir": root, "base": case["dest"]}
+        shim.expect = {"dir": root, "base": case["dest"], "fd": case.get("file") == "fd"}
         if mode == "crash":
             sys.stdout.flush()
             sys.stderr.flush()
@@ -938,6 +953,20 @@ def gen_sharded(rng) -> dict:
     return finalize(case)
 
 
+def gen_variant(rng) -> dict:
+    """Oracle-only variants: the parallel writer (max_workers=2..3; effect order is schedule dependent) and a
+    file object with fileno() (numpy / copy_file_range fast paths write through the descriptor)."""
+    case = gen_case(rng)
+    case["model"] = False
+    if rng.random() < 0.5:
+        case["workers"] = rng.choice([2, 3])
+        case["label"] = "parallel"
+    else:
+        case["file"] = "fd"
+        case["label"] = "fd"
+    return case
+
+
 def gen_nul(rng) -> dict:
     """An external tensor whose location contains a NUL byte: os.path.samefile raises ValueError while
     the overwritten tensors are collected (oracle only; the model has no such path)."""
@@ -1072,6 +1101,8 @@ def run(ctx: Ctx) -> None:
         cases.append(gen_sharded(ctx.rng))
     for _ in range(ctx.pick(2, 6)):
         cases.append(gen_nul(ctx.rng))
+    for _ in range(ctx.pick(16, 120)):
+        cases.append(gen_variant(ctx.rng))
     base = tempfile.mkdtemp(prefix="c08run-")
     try:
         chunks = [cases[i::16] for i in range(16)]
